@@ -59,6 +59,7 @@ CACHES = {
     "wt-both": (rv.cache_opts(0, 1, 2, "wt", "plru", 3), rv.cache_opts(1, 0, 1, "wb", "lru", 2)),
     "wb-assoc": (rv.cache_opts(0, 0, 4, "wb", "plru", 1), rv.cache_opts(0, 0, 2, "wb", "lru", 0)),
     "lru4": (rv.cache_opts(0, 0, 4, "wb", "lru", 2), rv.cache_opts(0, 1, 4, "wb", "lru", 1)),
+    "plru-sets": (rv.cache_opts(1, 0, 2, "wb", "plru", 1), rv.cache_opts(1, 1, 2, "wb", "plru", 0)),
     "wt-lru3": (rv.cache_opts(0, 1, 3, "wt", "lru", 1), rv.cache_opts(1, 0, 3, "wb", "lru", 0)),
 }
 TOY_CORPUS = [
